@@ -16,6 +16,7 @@
 -/
 import Alpaqa.Proofs.PanocLoop
 import Alpaqa.Props.C06
+import Alpaqa.Proofs.PanocLoopExample
 
 namespace Alpaqa.Props.C06Panoc
 open Alpaqa Alpaqa.Panoc Alpaqa.Gen Alpaqa.Props.C06
@@ -324,9 +325,25 @@ theorem noProgress_needs_consecutive (P : Problem α) (dir : Direction D α) (d0
   have h2 := (no_progress_counter_is_npRun P dir d0 pr stop oot x0 gV gS sh hh).2.2
   omega
 
-/-! ### Non-vacuity -/
+/-! ### Non-vacuity: a concrete run over ℚ (`Proofs/PanocLoopExample.lean`) meets the hypotheses -/
 
-/-- a run that returns before the main loop has no final head … -/
-example : (3 : Nat) ≤ 3 + 0 := Nat.le_refl _
+section examples
+open Alpaqa.Panoc.Example
+
+/-- the run reaches the main loop, does not run out of fuel, converges after two iterations -/
+example : (finalHead Pq dirNoop () prq (stopAt none) false [1] [] 0).isSome = true ∧
+    (rq none).fuelOut = false ∧ (rq none).stats.status = .Converged ∧
+    (rq none).stats.iterations = 2 ∧ (rq none).stats.iterations ≤ prq.maxIter ∧
+    (rq none).stats.eps ≤ effTol prq.tolerance := by decide +kernel
+
+/-- its "iterate unchanged" flags: both iterations moved -/
+example : runFlags Pq dirNoop () prq (stopAt none) false [1] [] 0 = [false, false] := by
+  decide +kernel
+
+/-- an interrupted run (flag visible from tick 7) also meets them -/
+example : (finalHead Pq dirNoop () prq (stopAt (some 7)) false [1] [] 0).isSome = true ∧
+    (rq (some 7)).fuelOut = false ∧ (rq (some 7)).stats.status = .Interrupted := by decide +kernel
+
+end examples
 
 end Alpaqa.Props.C06Panoc
